@@ -460,6 +460,9 @@ class C2Profile(ConfigBlock):
 
         for setting, value in config.settings_by_index.items():
             logger.debug(f"{setting} -> {value}")
+            if isinstance(value, str):
+                # text values are handed over as bytes so that value_to_string() escapes backslashes and quotes
+                value = value.encode("latin-1")
             if setting == BeaconSetting.SETTING_SLEEPTIME:
                 profile.set_option("sleeptime", value)
             elif setting == BeaconSetting.SETTING_MAXGET:
@@ -469,7 +472,7 @@ class C2Profile(ConfigBlock):
                 profile.set_option("jitter", value)
             elif setting == BeaconSetting.SETTING_DOMAINS:
                 uris = ", ".join(config.uris)
-                http_get.set_option("uri", uris)
+                http_get.set_option("uri", uris.encode("latin-1"))
             elif setting == BeaconSetting.SETTING_SPAWNTO:
                 # profile.set_option("spawnto", value)
                 # deprecated
@@ -511,19 +514,17 @@ class C2Profile(ConfigBlock):
                 block_steps = collections.defaultdict(list)
                 for k, v in value:
                     if k in ("_HEADER", "_HOSTHEADER"):
-                        v = v.decode("latin-1")
-                        header, _, header_val = v.partition(": ")
+                        header, _, header_val = v.partition(b": ")
                         headers.append((header, header_val))
                     elif k == "_PARAMETER":
-                        v = v.decode("latin-1")
-                        param, _, param_val = v.partition("=")
+                        param, _, param_val = v.partition(b"=")
                         params.append((param, param_val))
                     elif k == "BUILD":
                         _build = v
                     elif v is True:
                         block_steps[_build].append(k.lower())
                     else:
-                        block_steps[_build].append((k.lower(), v.decode("latin-1")))
+                        block_steps[_build].append((k.lower(), v))
                 logger.debug(f"block_steps: {block_steps}")
                 if headers:
                     http_get_client._pair("header", headers)
@@ -540,20 +541,16 @@ class C2Profile(ConfigBlock):
                 block_steps = collections.defaultdict(list)
                 for k, v in value:
                     if k in ("_HEADER", "_HOSTHEADER"):
-                        v = v.decode("latin-1")
-                        header, _, header_val = v.partition(": ")
+                        header, _, header_val = v.partition(b": ")
                         headers.append((header, header_val))
                     elif k == "_PARAMETER":
-                        v = v.decode("latin-1")
-                        param, _, param_val = v.partition("=")
+                        param, _, param_val = v.partition(b"=")
                         params.append((param, param_val))
                     elif k == "BUILD":
                         _build = v
                     elif v is True:
                         block_steps[_build].append(k.lower())
                     else:
-                        # log.debug(f"{k} -> {v}")
-                        v = repr(v)[2:-1]
                         block_steps[_build].append((k.lower(), v))
                 logger.debug(f"block_steps: {block_steps}")
                 if headers:
